@@ -494,6 +494,12 @@ class Builder:
                               [Seg("_vx_p%d" % k, "repo", fn=qual)]))
             self.count("R3c")
         if external_body:
+            # site rewrites that touch the signature still apply (the body is replaced as a whole)
+            if c:
+                for (rule, old_, new_, cnt, line) in c.rewrites:
+                    for mm in re.finditer(re.escape(old_), src[a:it.body_open]):
+                        nn = new_.replace("$RET", c.ret or "r")
+                        edits.append(Edit(a + mm.start(), a + mm.end(), [Seg(nn, "repo", file=rel, line=rs.line_of(src, a + mm.start()), fn=qual)]))
             edits.append(Edit(it.body_open + 1, b - 1, [Seg(" unimplemented!() ", "unit", fn=qual)]))
             self.emit_with_edits(rel, src, a, b, edits, fn=qual)
             return
@@ -906,6 +912,21 @@ class Builder:
                         edits.append(Edit(a + mm.start(), a + mm.end(), [Seg(", ", "repo", fn=qual)]))
                         edits.append(Edit(cp + 1, cp + 1 + t.end(), [], order=5))
                     self.count("R20")
+            if rule[0] == "R22":
+                # `MACRO!({ .. "KEY" => Value::Bytes(E), .. })` -> `FN(E)`: a data-building macro replaced by a trusted function of
+                # the one non-constant member (the constant members are dropped and not covered)
+                mac, fnname, key = rule[1], rule[2], rule[3]
+                for mm in re.finditer(r"(?<![A-Za-z0-9_])" + re.escape(mac) + r"\s*!\s*\(", m[a:b]):
+                    op = a + mm.end() - 1
+                    cp = rs.match_close(m, op)
+                    km = re.search(r"\"" + re.escape(key) + r"\"\s*=>\s*Value\s*::\s*Bytes\s*\(", src[op:cp])
+                    if not km:
+                        continue
+                    eo = op + km.end() - 1
+                    ec = rs.match_close(m, eo)
+                    edits.append(Edit(a + mm.start(), eo + 1, [Seg(fnname + "(", "repo", fn=qual)]))
+                    edits.append(Edit(ec, cp + 1, [Seg(")", "repo", fn=qual)]))
+                    self.count("R22")
             if rule[0] == "R18":
                 # `E.then(|| BODY)` -> `(if E { Some(BODY) } else { None })`  (the definition of bool::then)
                 for mm in re.finditer(r"\.\s*then\s*\(\s*\|\s*\|", m[a:b]):
